@@ -229,10 +229,40 @@ impl Kind {
     }
 }
 
-pub struct Live<'w, 'a, S: Service> {
-    pub guard: WaitSetGuard<'w, 'a, S>,
+/// `WaitSetGuard` is invariant in the lifetime of the attached object (it holds a GAT of the
+/// reactor), and `attach_interval` returns a guard for `'static`: the two cannot share a type
+pub enum AnyGuard<'w, 'a, S: Service + 'static> {
+    Object(WaitSetGuard<'w, 'a, S>),
+    Interval(WaitSetGuard<'w, 'static, S>),
+}
+
+pub struct Live<'w, 'a, S: Service + 'static> {
+    pub guard: AnyGuard<'w, 'a, S>,
     pub ws: usize,
     pub kind: Kind,
+}
+
+impl<S: Service + 'static> Live<'_, '_, S> {
+    fn has_event(&self, id: &WaitSetAttachmentId<S>) -> bool {
+        match &self.guard {
+            AnyGuard::Object(g) => id.has_event_from(g),
+            AnyGuard::Interval(g) => id.has_event_from(g),
+        }
+    }
+
+    fn has_missed(&self, id: &WaitSetAttachmentId<S>) -> bool {
+        match &self.guard {
+            AnyGuard::Object(g) => id.has_missed_deadline(g),
+            AnyGuard::Interval(g) => id.has_missed_deadline(g),
+        }
+    }
+
+    fn id(&self) -> WaitSetAttachmentId<S> {
+        match &self.guard {
+            AnyGuard::Object(g) => WaitSetAttachmentId::from_guard(g),
+            AnyGuard::Interval(g) => WaitSetAttachmentId::from_guard(g),
+        }
+    }
 }
 
 #[derive(Clone, Copy, Debug, PartialEq, Eq, PartialOrd, Ord)]
@@ -287,7 +317,7 @@ pub fn run_case(c: &Case, obs: &mut Obs, k: &Counters) -> Result<(), Failure> {
     }
 }
 
-fn run<S: Service>(c: &Case, obs: &mut Obs, k: &Counters) -> Result<(), Failure>
+fn run<S: Service + 'static>(c: &Case, obs: &mut Obs, k: &Counters) -> Result<(), Failure>
 where
     <S::Event as Event<RelocatableCountingBitSet>>::Listener: SynchronousMultiplexing,
 {
@@ -297,11 +327,11 @@ where
     r
 }
 
-fn count_on<S: Service>(guards: &[Live<'_, '_, S>], w: usize) -> usize {
+fn count_on<S: Service + 'static>(guards: &[Live<'_, '_, S>], w: usize) -> usize {
     guards.iter().filter(|g| g.ws == w).count()
 }
 
-fn attached<S: Service>(guards: &[Live<'_, '_, S>], w: usize, s: usize) -> bool {
+fn attached<S: Service + 'static>(guards: &[Live<'_, '_, S>], w: usize, s: usize) -> bool {
     guards.iter().any(|g| g.ws == w && g.kind.source() == Some(s))
 }
 
@@ -309,7 +339,7 @@ fn dur(far: bool) -> Duration {
     if far { FAR } else { SHORT }
 }
 
-fn interpret<S: Service>(c: &Case, obs: &mut Obs, k: &Counters, domain: &Domain) -> Result<(), Failure>
+fn interpret<S: Service + 'static>(c: &Case, obs: &mut Obs, k: &Counters, domain: &Domain) -> Result<(), Failure>
 where
     <S::Event as Event<RelocatableCountingBitSet>>::Listener: SynchronousMultiplexing,
 {
@@ -366,7 +396,7 @@ where
                             if guards.iter().any(|g| g.ws != w && g.kind.source() == Some(s)) {
                                 obs.class("source_on_two_waitsets");
                             }
-                            guards.push(Live { guard, ws: w, kind });
+                            guards.push(Live { guard: AnyGuard::Object(guard), ws: w, kind });
                         }
                         Err(e) => fail!("waitset.attach", "step {step}: {op:?} on an unattached source failed with {e:?}"),
                     }
@@ -380,7 +410,7 @@ where
                             reused = true;
                             obs.class("timer_attached_after_timer_drop");
                         }
-                        guards.push(Live { guard, ws: w, kind: Kind::Interval(*far) });
+                        guards.push(Live { guard: AnyGuard::Interval(guard), ws: w, kind: Kind::Interval(*far) });
                     }
                     Err(e) => fail!("waitset.attach", "step {step}: {op:?} failed with {e:?}"),
                 }
@@ -424,8 +454,8 @@ where
                     |id| {
                         let mut m = vec![];
                         for (gi, lg) in guards.iter().enumerate() {
-                            let ev = id.has_event_from(&lg.guard);
-                            let missed = id.has_missed_deadline(&lg.guard);
+                            let ev = lg.has_event(&id);
+                            let missed = lg.has_missed(&id);
                             if ev {
                                 m.push((gi, What::Event));
                             }
@@ -435,7 +465,7 @@ where
                             // the documented BTreeMap approach: the id of a notification / interval
                             // guard is the id its events arrive with; the id of a deadline guard is
                             // the id of its missed deadline
-                            let same = id == WaitSetAttachmentId::from_guard(&lg.guard);
+                            let same = id == lg.id();
                             let want = match lg.kind {
                                 Kind::Deadline(..) => missed,
                                 _ => ev,
